@@ -45,6 +45,15 @@ class _VSelector:
             self._empty = 0
             return ev
 
+        if loop._exec_held:
+            # nothing else is ready: now the "late" executor jobs finish
+            loop._release_held()
+            return []
+
+        if loop._exec_timed:
+            # jobs that are due after some more iterations: keep iterating
+            return []
+
         if loop._exec_jobs > 0:
             # block for real until the executor job signals the self-pipe
             return self._inner.select(0.02)
@@ -96,6 +105,8 @@ class VLoop(asyncio.SelectorEventLoop):
         self._exec_jobs = 0
         self.exec_order = 'fifo'
         self._exec_held = []
+        self._exec_timed = []
+        self._exec_rng = None
         self._idle_waiters = []
         self.deadlocked = False
         self.time_jumps = 0
@@ -108,43 +119,82 @@ class VLoop(asyncio.SelectorEventLoop):
 
     def _run_once(self):
         self.steps += 1
+        if self._exec_timed:
+            due = [j for j in self._exec_timed if j[0] <= self.steps]
+            if due:
+                self._exec_timed = [j for j in self._exec_timed
+                                    if j[0] > self.steps]
+                for _, fut, func, args in due:
+                    if fut.cancelled():
+                        continue
+                    try:
+                        fut.set_result(func(*args))
+                    except Exception as exc:    # pylint: disable=broad-except
+                        fut.set_exception(exc)
         super()._run_once()
 
     def run_in_executor(self, executor, func, *args):
+        """Executor jobs finish whenever their thread happens to get there;
+           relative to the loop's own callbacks that is a schedule choice.
+           exec_order selects it: 'thread' = real threads (kernel decides);
+           'eager' = the result is there before anything else runs;
+           'late_fifo' / 'late_lifo' = results arrive only once the loop has
+           nothing else to do, oldest / newest first.  The last three run the
+           function on the loop thread and are fully deterministic."""
+
+        mode = self.exec_order
+        if mode == 'lifo':
+            mode = 'late_lifo'
+
+        if mode == 'eager':
+            fut = self.create_future()
+            try:
+                fut.set_result(func(*args))
+            except Exception as exc:        # pylint: disable=broad-except
+                fut.set_exception(exc)
+            return fut
+
+        if mode in ('late_fifo', 'late_lifo'):
+            fut = self.create_future()
+            self._exec_held.append((fut, func, args))
+            return fut
+
+        if isinstance(mode, str) and mode.startswith('steps:'):
+            # the result arrives N loop iterations after submission, i.e. in
+            # the middle of whatever else is going on
+            fut = self.create_future()
+            if mode.startswith('steps:rand:'):
+                if self._exec_rng is None:
+                    import random as _random
+                    self._exec_rng = _random.Random(mode)
+                n = self._exec_rng.choice([1, 2, 3, 5, 8, 13, 21, 40])
+            else:
+                n = int(mode[6:])
+            self._exec_timed.append((self.steps + n, fut, func, args))
+            return fut
+
         self._exec_jobs += 1
         fut = super().run_in_executor(executor, func, *args)
-
-        if self.exec_order == 'lifo':
-            # Executor jobs finish in whatever order the threads happen to
-            # run.  This mode makes the legal "last submitted finishes
-            # first" order deterministic: results are held back until every
-            # outstanding job is done and then handed out newest first.
-            outer = self.create_future()
-            self._exec_held.append((fut, outer))
-
-            def _release(_fut):
-                if not all(i.done() for i, _ in self._exec_held):
-                    return
-                held, self._exec_held = self._exec_held, []
-                for inner, out in reversed(held):
-                    self._exec_jobs -= 1
-                    if out.cancelled():
-                        continue
-                    if inner.cancelled():
-                        out.cancel()
-                    elif inner.exception() is not None:
-                        out.set_exception(inner.exception())
-                    else:
-                        out.set_result(inner.result())
-
-            fut.add_done_callback(_release)
-            return outer
 
         def _done(_fut):
             self._exec_jobs -= 1
 
         fut.add_done_callback(_done)
         return fut
+
+    def _release_held(self):
+        """Deliver the held executor results (called when the loop is idle)"""
+
+        held, self._exec_held = self._exec_held, []
+        if self.exec_order in ('late_lifo', 'lifo'):
+            held.reverse()
+        for fut, func, args in held:
+            if fut.cancelled():
+                continue
+            try:
+                fut.set_result(func(*args))
+            except Exception as exc:        # pylint: disable=broad-except
+                fut.set_exception(exc)
 
     def _min_horizon(self):
         return min(h for _, h in self._idle_waiters)
